@@ -23,3 +23,28 @@ Theorem SRC_mode_stream : forall (isenc : bool) type kind key iv blks,
 Proof. exact SRC_mode_stream_proof. Qed.
 Print Assumptions SRC_mode_stream.
 
+
+(* ---- composed with C09 / C10 (model = FIPS-197 / SP 800-38A) ---- *)
+From Wencry Require Import AesSpec AesProofs ModesSpec ModesProofs.
+
+Theorem SRC_aes_block_is_fips197 : forall (enc : bool) key blk,
+  block16 key -> block16 blk ->
+  src_aes enc key blk = SOk (if enc then Cipher key blk else InvCipher key blk).
+Proof.
+  intros enc key blk Hk Hb. rewrite (SRC_aes_block enc key blk Hk Hb). f_equal.
+  destruct enc; [apply C09_encrypt_is_fips197_proof | apply C09_decrypt_is_fips197_proof]; assumption.
+Qed.
+Print Assumptions SRC_aes_block_is_fips197.
+
+Theorem SRC_mode_stream_is_sp80038a : forall (isenc : bool) m key iv blks,
+  m <= 4 -> block16 key -> block16 iv -> blocks16 blks ->
+  exists out, src_mode isenc m key iv blks = SOk out /\
+    Some out = if isenc then mode_enc (Cipher key) m iv blks else mode_dec (Cipher key) (InvCipher key) m iv blks.
+Proof.
+  intros isenc m key iv blks Hm Hk Hiv Hb. destruct isenc.
+  - destruct (C10_encryptors_are_sp80038a_proof m key iv blks Hm Hk Hiv Hb) as [kind [Hc Hr]].
+    eexists. split; [apply (SRC_mode_stream true m kind key iv blks Hc Hk Hiv Hb)|exact Hr].
+  - destruct (C10_decryptors_are_sp80038a_proof m key iv blks Hm Hk Hiv Hb) as [kind [Hc Hr]].
+    eexists. split; [apply (SRC_mode_stream false m kind key iv blks Hc Hk Hiv Hb)|exact Hr].
+Qed.
+Print Assumptions SRC_mode_stream_is_sp80038a.
